@@ -45,13 +45,39 @@ SIMPLE = ['noop', 'inner_caught', 'off', 'on', 'force_caught', 'capture_inside',
           'raise_new', 'force_prop', 'nested_nothing']
 TERMINAL = {'raise_new', 'force_prop', 'nested_nothing'}
 CLASSES = ['ValueError', 'NeedsArgs', 'Chained', 'HasTraceback', 'KeyboardInterrupt',
-           'SystemExit']
+           'SystemExit', 'Falsy', 'EmptyAggregate', 'BadStr']
 
 
 class NeedsArgs(Exception):
     def __init__(self, a, b):
         super().__init__(a, b)
         self.a, self.b = a, b
+
+
+class Falsy(Exception):
+    """An exception object that is false in a boolean context."""
+    def __bool__(self):
+        return False
+
+
+class EmptyAggregate(Exception):
+    """An exception with a length (an aggregate of sub-errors), currently empty."""
+    def __init__(self, *errors):
+        super().__init__(*errors)
+        self.errors = list(errors)
+
+    def __len__(self):
+        return len(self.errors)
+
+
+class BadStr(Exception):
+    """A lazily formatted message whose formatting fails."""
+    def __str__(self):
+        return 'volume %(id)s' % {}
+
+
+class Cancelled(BaseException):
+    pass
 
 
 class Inner(Exception):
@@ -97,6 +123,12 @@ def make_e0(cls):
             raise OSError(5, 'already raised once')
         except OSError as e:
             return e
+    if cls == 'Falsy':
+        return Falsy('false in a boolean context')
+    if cls == 'EmptyAggregate':
+        return EmptyAggregate()
+    if cls == 'BadStr':
+        return BadStr()
     if cls == 'KeyboardInterrupt':
         return KeyboardInterrupt()
     if cls == 'SystemExit':
@@ -375,10 +407,12 @@ _PROGS = []
 def check_filter(rep):
     from oslo_utils import excutils
     preds = {'all': lambda e: True, 'none': lambda e: False,
-             'by_class': lambda e: isinstance(e, KeyError),
+             'by_class': lambda e: isinstance(e, (KeyError, Cancelled)),
              'by_message': lambda e: 'skip' in str(e)}
     excs = [lambda: KeyError('k'), lambda: ValueError('please skip'), lambda: ValueError('no'),
-            lambda: NeedsArgs(1, 2), lambda: OSError(2, 'skip it')]
+            lambda: NeedsArgs(1, 2), lambda: OSError(2, 'skip it'),
+            lambda: Cancelled('task cancelled, skip'), lambda: SystemExit(0),
+            lambda: KeyboardInterrupt(), lambda: Falsy('skip me'), lambda: EmptyAggregate()]
 
     class Holder:
         def __init__(self, p):
@@ -409,12 +443,12 @@ def check_filter(rep):
                     elif form == 'call_in_handler':
                         try:
                             raise_site(ex)
-                        except Exception as caught:
+                        except BaseException as caught:
                             filt(caught)
                     elif form == 'method_call_in_handler':
                         try:
                             raise_site(ex)
-                        except Exception as caught:
+                        except BaseException as caught:
                             holder.filt(caught)
                     elif form == 'call_outside':
                         filt(ex)
